@@ -83,76 +83,21 @@ INVARIANTS BuiltIsForest RoundTrip AcceptedUnderAllOptions Emit
 
 
 def run_emit_and_replay(ctx, module, files, sub, timeout):
-    """TLC enumerates the model, checks its invariants and emits every case;
-    the real code replays every case.  Returns (tlc result, mismatches)."""
-    cases = ctx.path(module + ".cases.ndjson")
-    with open(cases, "w") as fh:
-        def on_case(obj):
-            fh.write(json.dumps(obj, separators=(",", ":")) + "\n")
-            if ctx.tlc_case_count % 997 == 0:
-                ctx.sample({"from": module, "case": obj})
-            ctx.tlc_case_count += 1
-        res = ctx.tlc(module, files=files, on_case=on_case, timeout=timeout)
-    if res["violated"]:
-        raise common.MachineryError(
-            "design step: invariant %s fails on the model itself (%s) - the specification is wrong, "
-            "not the code" % (res["violated"], module))
-    out = ctx.path(module + ".results.ndjson")
-    ctx.vh(["codec", sub], stdin_path=cases, stdout_path=out, timeout=timeout)
-    mism = []
-    summary = None
-    for o in common.read_ndjson(out):
-        if "summary" in o:
-            summary = o
-        else:
-            mism.append(o)
-    if summary is None or summary["cases"] != res["cases"]:
-        raise common.MachineryError("replay of %s incomplete: %s of %d cases" % (module, summary, res["cases"]))
-    ctx.traces += summary["cases"]
-    os.remove(cases)
-    return res, mism
+    return common.emit_and_replay(ctx, module, files, ["codec", sub], timeout=timeout)
 
 
 def validate_obs(ctx, mode, obs_path, timeout):
-    """Direction B: TLC judges every recorded observation. Returns list of bad observations."""
-    n = 0
-    obs = []
+    bad, n = common.validate_obs(ctx, "CodecTrace", "CodecTrace_" + mode, "codec_obs.ndjson", obs_path, timeout=timeout)
+    for o in bad:
+        o["spec_out"] = o["spec_extra"]
     with open(obs_path) as fh:
-        for line in fh:
-            if line.strip():
-                n += 1
-    if n == 0:
-        raise common.MachineryError("driver recorded nothing")
-    bad = []
-    chunk = 40000
-    with open(obs_path) as fh:
-        lines = [l for l in fh if l.strip()]
-    for start in range(0, n, chunk):
-        part = lines[start:start + chunk]
-        with open(os.path.join(ctx.specdir if ctx._spec_ready else ctx.scratch, "codec_obs.ndjson"), "w") as fh:
-            fh.writelines(part)
-        res = ctx.tlc("CodecTrace", cfg="CodecTrace_" + mode, cont=True, timeout=timeout)
-        idx = []
-        expected = {}
-        for l in res["out"]:
-            m = re.match(r'^<<"BAD", (\d+), "([^"]*)">>', l)
-            if m:
-                idx.append(int(m.group(1)))
-                expected[int(m.group(1))] = m.group(2)
-        if res["distinct"] != 2 * len(part):
-            raise common.MachineryError("trace validation explored %d states for %d observations" % (res["distinct"], len(part)))
-        if bool(idx) != bool(res["violated"]):
-            raise common.MachineryError("BAD lines and TLC verdict disagree")
-        for i in sorted(set(idx)):
-            o = json.loads(part[i - 1])
-            o["spec_out"] = expected.get(i, "-")
-            bad.append(o)
-        ctx.traces += len(part)
-    for l in lines[:2]:
-        o = json.loads(l)
-        if "inp" in o:
-            o["text"] = bytes(o["inp"]).decode("latin-1")
-        ctx.sample({"from": "recorded", "observation": o})
+        for k, l in enumerate(fh):
+            if k >= 2:
+                break
+            o = json.loads(l)
+            if "inp" in o:
+                o["text"] = bytes(o["inp"]).decode("latin-1")
+            ctx.sample({"from": "recorded", "observation": o})
     return bad, n
 
 
@@ -182,7 +127,6 @@ def classify_decode(prop, exp_out, obs, nf):
 
 
 def run(ctx):
-    ctx.tlc_case_count = 0
     prop, quick = ctx.prop, ctx.tier == "quick"
     ctx.prepare_spec()
     for m in ("CodecOps", "Codec", "CodecBuild", "CodecTrace"):
@@ -264,7 +208,7 @@ def run(ctx):
                 "real decoder; B: %d seeded observations (level walks, mixed terminators, BOM, byte mutations, random bytes, "
                 "adversarial files, 1 MB inputs) x 4 option sets judged by CodecTrace!CheckDecode" % total)
     ctx.extra["drift_not_counted"] = drift
-    ctx.extra["cases_emitted_by_tlc"] = ctx.tlc_case_count
+    ctx.extra["cases_emitted_by_tlc"] = getattr(ctx, "cases_emitted", 0)
     ctx.assumptions += [
         "TLC (model checker) and the CommunityModules Json reader are trusted",
         "harness/proj.Forest is the only projection of real documents onto the abstract forest",
